@@ -83,8 +83,21 @@ def run_pbt_shard(spec):
                    "VERIF_SCRATCH": spec["scratch"]})
     cfg = ",".join("%s=%s" % kv for kv in spec["cfg"].items())
     cmd = [spec["binary"], "--gen", spec["gen"], "--cfg", cfg, "--out", out, "--marker", marker, "--samples", "3"]
+    return run_shard_generic(spec, cmd, env, out, marker)
+
+
+def run_enum_shard(spec):
+    out = os.path.join(spec["scratch"], spec["name"] + ".json")
+    marker = os.path.join(spec["scratch"], spec["name"] + ".marker")
+    env = san_env({"VERIF_SCRATCH": spec["scratch"]})
+    cfg = ",".join("%s=%s" % kv for kv in spec["cfg"].items())
+    cmd = [spec["binary"], "--enum", spec["gen"], "--cfg", cfg, "--shard", "%d/%d" % (spec["shard"], spec["nshards"]), "--out", out, "--marker", marker]
+    return run_shard_generic(spec, cmd, env, out, marker)
+
+
+def run_shard_generic(spec, cmd, env, out, marker):
     t0 = time.time()
-    res = dict(name=spec["name"], job=spec["job"], cmd=" ".join(cmd), rc_params=env["RC_PARAMS"])
+    res = dict(name=spec["name"], job=spec["job"], cmd=" ".join(cmd), rc_params=env.get("RC_PARAMS", ""))
     try:
         r = subprocess.run(cmd, env=env, capture_output=True, timeout=spec.get("timeout", 3600))
         res["returncode"] = r.returncode
@@ -115,7 +128,7 @@ def run_pbt_shard(spec):
     return res
 
 
-SHARD_RUNNERS = {"pbt": run_pbt_shard}
+SHARD_RUNNERS = {"pbt": run_pbt_shard, "enum": run_enum_shard}
 
 
 def register_engine(name, fn):
@@ -261,6 +274,18 @@ def do_replay(pid, path):
         executor, config = j["executor"], j.get("config", "san")
     if "replay_hook" in p:
         return p["replay_hook"](pid, path, text)
+    if "buildcheck 1" in text:
+        targets = set()
+        for j in p["jobs"]("quick", 1):
+            targets |= set(job_targets(j))
+        try:
+            build.build_many(sorted(targets))
+        except build.BuildError as e:
+            log(e.log[-4000:])
+            print("VIOLATION property=%s replay=%s" % (pid, os.path.abspath(path)))
+            return 1
+        print("replay passes: the executors of %s compile against %s" % (pid, build.REPO))
+        return 0
     try:
         bins = build.build_many([("replay", executor, config)])
     except build.BuildError as e:
@@ -300,9 +325,21 @@ def _run_check(pid, p, tier, seed, jobs, findings, scratch, t0):
     try:
         bins = build.build_many(sorted(targets))
     except build.BuildError as e:
-        hook = p.get("on_build_error")
-        if hook:
-            return hook(pid, tier, seed, e, t0)
+        if p.get("build_error_is_violation"):
+            # the executor of this property instantiates documented entry points; if it does not
+            # compile against the tree, the documented use does not compile
+            first = [l for l in e.log.splitlines() if "error" in l][:1]
+            note = "buildlog\nproperty %s: the documented entry points exercised by the executor do not compile against %s\n%s" % (pid, build.REPO, e.log[-6000:])
+            path = write_replay(pid, "prop %s\nbuildcheck 1\n" % pid, note)
+            log("---- violation of %s (compile failure) ----\n%s" % (pid, e.log[-4000:]))
+            print("VIOLATION property=%s replay=%s" % (pid, path))
+            ev = dict(property_id=pid, tier=tier, seed=seed, level=p.get("level", "exploration"),
+                      coverage=dict(evaluations=1, distinct_nontrivial=0, rule=p["rule"], samples=["(compile failure) " + (first[0] if first else "")]),
+                      assumptions=p.get("assumptions", []), wall_s=round(time.time() - t0, 2), violations=1)
+            os.makedirs(EVIDENCE, exist_ok=True)
+            with open(os.path.join(EVIDENCE, pid + ".json"), "w") as f:
+                json.dump(ev, f, indent=1)
+            return 1
         log("BUILD FAILED for %s: the harness does not compile against %s\n%s" % (pid, build.REPO, e.log))
         print("BROKEN property=%s reason=build-failed" % pid)
         return 2
@@ -339,7 +376,7 @@ def _run_check(pid, p, tier, seed, jobs, findings, scratch, t0):
         if j["engine"] == "custom":
             continue
         nsh = max(1, int(j.get("shards", 4)))
-        total = int(j["cases"])
+        total = int(j.get("cases", 0))
         per = max(1, total // nsh)
         fe = j.get("frontend", j["engine"])
         for s in range(nsh):
